@@ -1309,6 +1309,145 @@ def _mutseq_batch(run, cases):
                          'eq / hash after an in-place change')
 
 
+# ----------------------------------------------------------------------------------------------- read-only operations
+
+def _read_attrs(o):
+    for sl in pub_slots(o) if type(o).__name__ in FIELDS else []:
+        getattr(o, sl)
+
+
+def _walk_reads(o, seen=None):
+    """read every public attribute of everything reachable (what a debugger / serializer does)"""
+    seen = set() if seen is None else seen
+    if not is_mut(o) or id(o) in seen:
+        return
+    seen.add(id(o))
+    if isinstance(o, list):
+        for e in o:
+            _walk_reads(e, seen)
+    elif isinstance(o, ncd_base()):
+        for _, v in list(o._data.values()):
+            _walk_reads(v, seen)
+    else:
+        for sl in pub_slots(o):
+            _walk_reads(getattr(o, sl), seen)
+
+
+def readonly_ops(twin):
+    """(label, function) of operations that must not change an object: comparison, printing, copying, reading,
+    serializing.  `twin` is an equal object used as the other operand of == / !="""
+    def call(name):
+        return lambda o: getattr(o, name)() if hasattr(o, name) else None
+    return [
+        ('==', lambda o: o == twin), ('!=', lambda o: o != twin), ('reflected ==', lambda o: twin == o),
+        ('repr', repr), ('str', str), ('copy()', call('copy')), ('copy.copy', copy.copy),
+        ('copy.deepcopy', copy.deepcopy), ('pickle.dumps', pickle.dumps),
+        ('attribute reads', _read_attrs), ('deep attribute reads', _walk_reads),
+        ('tocimxml', call('tocimxml')), ('tocimxmlstr', call('tocimxmlstr')), ('tomof', call('tomof')),
+        ('to_wbem_uri', call('to_wbem_uri')), ('len/iter', lambda o: (len(o), list(o)) if hasattr(o, '__len__') else None),
+        ('hash', hash), ('in set', lambda o: o in {twin}),
+    ]
+
+
+def eval_temporal(case):
+    """ONE object over time: hash it and put it into a set / dict while nobody has read it yet, then run read-only
+    operations in a seeded order; after each: same hash, still found.  Finally: the touched object against a never
+    touched equal one (hash taken before anything reads it): == implies equal hashes, found in each other's set."""
+    import random as _random
+    spec = case['spec']
+    try:
+        o, twin, fresh = build(spec), build(spec), build(spec)
+    except Exception:  # noqa
+        return None
+    res = {'kind': spec['K'], 'steps': []}
+    try:
+        h0 = hash(o)
+        holder_set, holder_dict = {o}, {o: 1}
+    except Exception as e:  # noqa
+        res['exc'] = common.exc_json(e)
+        return res
+    ops = readonly_ops(twin)
+    _random.Random(case['seed']).shuffle(ops)
+    for label, fn in ops:
+        st = {'op': label}
+        try:
+            fn(o)
+        except Exception as e:  # noqa   (e.g. tomof() of an exotic value): the operation itself is not C05's subject
+            st['op_exc'] = type(e).__name__
+        try:
+            st['hash_same'] = hash(o) == h0
+            st['in_set'] = o in holder_set
+            st['in_dict'] = holder_dict.get(o) == 1
+        except Exception as e:  # noqa
+            st['exc'] = common.exc_json(e)
+        res['steps'].append(st)
+        if st.get('exc') or not (st['hash_same'] and st['in_set'] and st['in_dict']):
+            break
+    try:
+        hf = hash(fresh)                      # never read so far
+        fset = {fresh}
+        res['touched_vs_untouched'] = {'heq': hash(o) == hf, 'fresh_in_touched_set': fresh in {o},
+                                       'touched_in_fresh_set': o in fset, 'eq': bool(o == fresh),
+                                       'fresh_hash_stable': hash(fresh) == hf}
+    except Exception as e:  # noqa
+        res['touched_vs_untouched'] = {'exc': common.exc_json(e)}
+    res['nan'] = has_nan(enc(o, Ids()))
+    return res
+
+
+def oracle_temporal(run, case, ev):
+    kind = ev['kind']
+    if ev.get('nan'):
+        return
+    if 'exc' in ev:
+        run.violate({'kind': 'hash_raises', 'cls': kind, 'exc': ev['exc'].get('exc')}, case, ev['exc'])
+        return
+    for st in ev['steps']:
+        if 'exc' in st:
+            run.violate({'kind': 'hash_raises', 'cls': kind, 'exc': st['exc'].get('exc'), 'after': st['op']}, case, st)
+        elif not st['hash_same']:
+            run.violate({'kind': 'hash_changes_after_readonly_operation', 'cls': kind, 'after': st['op']}, case, st)
+        elif not (st['in_set'] and st['in_dict']):
+            run.violate({'kind': 'set_member_lost_after_readonly_operation', 'cls': kind, 'after': st['op']}, case, st)
+    t = ev['touched_vs_untouched']
+    if 'exc' in t:
+        run.violate({'kind': 'hash_raises', 'cls': kind, 'exc': t['exc'].get('exc')}, case, t)
+    else:
+        if t['eq'] and not t['heq']:
+            run.violate({'kind': 'eq_but_hash_differs', 'cls': kind, 'between': 'touched and untouched object'}, case, t)
+        if t['eq'] and not (t['fresh_in_touched_set'] and t['touched_in_fresh_set']):
+            run.violate({'kind': 'set_or_dict_membership_inconsistent', 'cls': kind,
+                         'between': 'touched and untouched object'}, case, t)
+        if not t['eq']:
+            run.violate({'kind': 'equal_objects_compare_unequal', 'cls': kind, 'why': 'touched vs untouched'}, case, t)
+        if not t['fresh_hash_stable']:
+            run.violate({'kind': 'hash_changes_after_readonly_operation', 'cls': kind, 'after': '=='}, case, t)
+
+
+def gen_temporal_case(rng):
+    kind, gen = rng.choice(TOP)
+    return {'mode': 'temporal', 'kind': kind, 'spec': gen(rng), 'seed': rng.randrange(1 << 30)}
+
+
+def _temporal_worker(case):
+    return eval_temporal(case)
+
+
+def _temporal_batch(run, cases):
+    evs = common.pmap(_temporal_worker, cases, chunksize=32)
+    for case, ev in zip(cases, evs):
+        if ev is None:
+            run.count('temporal:skipped')
+            continue
+        run.case({'kind': case['kind'], 'spec': case['spec'], 'mode': 'temporal', 'seed': case['seed']},
+                 nontrivial=len(ev.get('steps', [])) > 5)
+        run.count('temporal:kind:' + case['kind'])
+        for st in ev.get('steps', []):
+            if 'op_exc' in st:
+                run.count('temporal:op_refused:' + st['op'])
+        oracle_temporal(run, case, ev)
+
+
 # ----------------------------------------------------------------------------------------------- NocaseDict API
 
 DKEYS = ['a', 'A', 'b', 'B', 'Key', 'KEY', 'key', 'Straße', 'STRASSE', 'strasse', 'ä', 'Ä', 'µ', 'x1', None, None]
@@ -1595,6 +1734,10 @@ def run(run):
                 'clear/len/keys/allow_unnamed_keys toggles) with keys from 14 spellings of 6 casefold classes + None: every return '
                 'value / exception class and the final item list (original spellings, order) against the model. '
                 'xkind: == and != between objects of two random CIM classes (TypeError expected unless same class). '
+                'temporal: ONE freshly built object is hashed and put into a set and a dict before anything has read it, then 18 '
+                'read-only operations (==, !=, repr, str, copy kinds, pickle, attribute reads at every depth, tocimxml, tomof, '
+                'to_wbem_uri, len/iter, hash, in) run in a seeded order: same hash and still found after each; then the touched object '
+                'against a never-read equal object. '
                 'mutseq: one object, up to 6 random in-place change sites (item assignment/deletion/update on every dict, path and '
                 'instance, key-property propagation, list append/pop, attribute re-binding, at every depth): hash it, change it, and '
                 'compare ==, hash and set membership with an equal object built and changed without having been hashed before. '
@@ -1629,6 +1772,13 @@ def run(run):
         done += m
         _timed(run, _dict_batch, [gen_dict_case(rng) for _ in range(m)])
     _timed(run, _xkind_batch, [gen_xkind_case(rng) for _ in range(n_x)])
+    # ---- one object over time: read-only operations must not change hash / membership
+    n_t = 10000 if run.thorough else 1500
+    done = 0
+    while done < n_t:
+        m = min(COPY_BATCH, n_t - done)
+        done += m
+        _timed(run, _temporal_batch, [gen_temporal_case(rng) for _ in range(m)])
     # ---- hash / change in place / compare with a never-hashed equal object
     done = 0
     while done < n_mut:
@@ -1768,6 +1918,10 @@ def search(run, n=6000):
             ev = eval_mutseq(case)
             if ev is not None:
                 oracle_mutseq(run, case, ev)
+            case = gen_temporal_case(rng)
+            ev = eval_temporal(case)
+            if ev is not None:
+                oracle_temporal(run, case, ev)
         if len(run.violations) > before + 20:
             break
     return run.violations[before:]
@@ -1778,7 +1932,13 @@ def replay(payload):
     if 'case' in case and 'how' in case:
         case = case['case']
     r = common.Run(PROP, 'quick', 0)
-    if case.get('mode') == 'mutseq':
+    if case.get('mode') == 'temporal':
+        ev = eval_temporal(case)
+        if ev is None:
+            return True, 'spec rejected by the constructors (nothing to check)'
+        oracle_temporal(r, case, ev)
+        shown = ev
+    elif case.get('mode') == 'mutseq':
         ev = eval_mutseq(case)
         if ev is None:
             return True, 'spec rejected by the constructors (nothing to check)'
